@@ -249,8 +249,12 @@ def specRead : List SemStep := [
   .transpose "input" (tableOfPred fun a => !a.tin)]
 
 def specEmbed : List SemStep := [
-  .embed false "parameters" (tableOfPred fun a => a.pre),
-  .embed true "parameters" (tableOfPred fun a => !a.pre)]
+  -- --precompute: the kernel slot receives the precomputed KERNEL matrix of the input (filled iff the method needs a
+  -- kernel), the distance slot the precomputed DISTANCE matrix (iff needed), the features slot the input itself
+  .embed false "parameters" "precomputed_kernel[needs_kernel ? kernel(input)]"
+    "precomputed_distance[needs_distance ? distance(input)]" "features(input)" (tableOfPred fun a => a.pre),
+  -- otherwise: embedUsing(input) = the three direct callbacks over the input
+  .embed true "parameters" "kernel(input)" "distance(input)" "features(input)" (tableOfPred fun a => !a.pre)]
 
 def specWrite : List SemStep := [
   .transpose "output.embedding" (tableOfPred fun a => a.tout),
@@ -529,9 +533,11 @@ theorem projection_files :
 
 /-- `precompute_same_params`: no `tapkee::kw = expr` row mentions --precompute, both branches of `if (opt.count(
     "precompute"))` pass the SAME parameter set and the same data to the library, and therefore the parameter set is the
-    same for any two command lines that differ in --precompute only.  (Equality of the RESULTS additionally needs the
-    precomputed callbacks to agree with the direct ones on what the method declares to need — C13; it fails for
-    Manifold Sculpting, which calls the distance callback although it declares `RequiresFeatures`: F-MS-TRAITS.) -/
+    same for any two command lines that differ in --precompute only.  Which matrix reaches which callback slot on the
+    --precompute branch is part of `data_path_is_spec` (`specEmbed`).  (Equality of the RESULTS additionally needs the
+    precomputed callbacks to agree with the direct ones on what the method declares to need — C13; until /repo 4cb36d9
+    it failed for Manifold Sculpting, which called the distance callback although it declared `RequiresFeatures`:
+    F-MS-TRAITS, corpus/C20/f-ms-traits.case.  The check compares the results of every --precompute pair on content.) -/
 theorem precompute_same_params :
     (∀ w ∈ cliWiring, "precompute" ∉ w.expr.opts) ∧
     (∀ s ∈ cliSteps, embedParamsOk s = true) ∧
